@@ -153,6 +153,15 @@ func (g *Gen) fill(k Kind, depth int, hidden bool) *Node {
 	for _, b := range ki.NInts {
 		n.N = append(n.N, g.T.Draw(b))
 	}
+	if k == WOpErr {
+		// unused address slots carry no token
+		if n.N[0]&1 == 0 {
+			n.S[2].Tok = ""
+		}
+		if n.N[0]&2 == 0 {
+			n.S[3].Tok = ""
+		}
+	}
 	// hidden sub-trees
 	for i := 0; i < ki.NHid; i++ {
 		n.Hid = append(n.Hid, g.node(depth+1, true))
@@ -172,6 +181,11 @@ func (g *Gen) fill(k Kind, depth int, hidden bool) *Node {
 			default:
 				a = Arg{Kind: ArgErr, Hid: len(n.Hid)}
 				n.Hid = append(n.Hid, g.node(depth+1, true))
+			}
+			if k == WSafeDetails && a.Kind == ArgUnsafeStr {
+				// WithSafeDetails redacts unsafe arguments away at
+				// construction: the token exists nowhere afterwards.
+				a.S.Tok = ""
 			}
 			n.A = append(n.A, a)
 		}
